@@ -175,7 +175,9 @@ func (m *Machine) execArm(fr *frame, blk *ssa.BasicBlock) (res armResult, ok boo
 			fr.env[x] = m.unop(fr, x, m.get(fr, x.X))
 		case *ssa.BinOp:
 			if x.Op == token.QUO || x.Op == token.REM {
-				panic(Unsupported{"division in arm"})
+				if d, isInt := m.get(fr, x.Y).(Int); !isInt || d.T != nil || d.C == 0 {
+					panic(Unsupported{"division by a non-constant in arm"})
+				}
 			}
 			if x.Op == token.SHL || x.Op == token.SHR {
 				if c, isInt := m.get(fr, x.Y).(Int); isInt && c.T != nil {
